@@ -413,8 +413,9 @@ fn add_pltotf_error_context(pl_source: &str, error_message: String, error_point:
             line_offset = 0;
         }
     }
-    if error_point == total_chars {
-        // This handles the unbalanced open parenthesis error.
+    if error_point >= total_chars {
+        // This handles the unbalanced open parenthesis error, and errors in elements
+        // that are cut short by the end of the file.
         let num_lines = line_index + 1;
         return format!("{error_message} (line {num_lines}).\n...) \n    ...",);
     }
